@@ -2,6 +2,7 @@
 //   static : pgm_index_<type>_create/search/destroy with a run-time epsilon -> trace in the StaticTrace format
 //   dynamic: dynamic_pgm_index_<type>_* call sequences                      -> trace in the DynTrace format (CObs lines)
 #include "rec_common.hpp"
+#include <omp.h>
 #include "static_common.hpp"
 extern "C" {
 #include "cpgm.h"
@@ -34,7 +35,7 @@ void run_static(Out &out, const std::string &kind, size_t n, int where, size_t e
     using K = typename Api::K;
     using L = std::numeric_limits<K>;
     Rng rng(seed);
-    std::vector<long long> off = explicit_off.empty() ? gen_offsets(kind, n, std::min<size_t>(eps, 64), rng) : explicit_off;
+    std::vector<long long> off = explicit_off.empty() ? gen_offsets(kind, n, std::min<size_t>(eps, 64), rng, n >= (size_t(1) << 15) ? (size_t) std::min(std::min(omp_get_num_procs(), omp_get_max_threads()), 20) : 0) : explicit_off;
     bool wide = false;
     std::vector<K> data = place<K>(off, where, rng, wide);
     n = data.size();
@@ -52,6 +53,11 @@ void run_static(Out &out, const std::string &kind, size_t n, int where, size_t e
             if (nx < n && (Wide<K>) data[nx] - (Wide<K>) data[i] > 3) add((Wide<K>) data[i] + ((Wide<K>) data[nx] - (Wide<K>) data[i]) / 2);
         }
         for (int s = 8; s < (int) sizeof(K) * 8; s += 7) { add((Wide<K>) data.back() + ((Wide<K>) 1 << s)); add((Wide<K>) data.front() - ((Wide<K>) 1 << s)); }
+        if (n >= (size_t(1) << 15)) {       // every key next to a boundary of the library's own chunks
+            size_t real = (size_t) std::min(std::min(omp_get_num_procs(), omp_get_max_threads()), 20);
+            for (size_t b = n / real; real > 1 && b < n; b += n / real)
+                for (long long d = -2; d <= 1; ++d) { size_t i = size_t((long long) b + d); if (i < n) { add((Wide<K>) data[i]); add((Wide<K>) data[i] + 1); add((Wide<K>) data[i] - 1); } }
+        }
         std::sort(queries.begin(), queries.end());
         queries.erase(std::unique(queries.begin(), queries.end()), queries.end());
     }
@@ -209,6 +215,13 @@ int main(int argc, char **argv) {
                         switch ((where + rep + (int) eps) % 4) { case 0: run_static<StaticApi32>(O(), kind, n, where, eps, rng.next(), {}); break; case 1: run_static<StaticApi64>(O(), kind, n, where, eps, rng.next(), {}); break;
                                                                  case 2: run_static<StaticApiU32>(O(), kind, n, where, eps, rng.next(), {}); break; default: run_static<StaticApiU64>(O(), kind, n, where, eps, rng.next(), {}); }
                     }
+        // the library's own chunked build (n >= 2^15, threads from the environment), runs of duplicates around the seams
+        for (int rep = 0; rep < (quick ? 1 : 3); ++rep) {
+            run_static<StaticApi32>(O(), "seams", 32768 + rng.below(6000), 0, 1, rng.next(), {});
+            run_static<StaticApiU64>(O(), "seams", 32768 + rng.below(6000), 2, 7, rng.next(), {});
+            run_static<StaticApi64>(O(), "seams", 32768 + rng.below(6000), 1, 64, rng.next(), {});
+            run_static<StaticApiU32>(O(), "seams", 32768 + rng.below(6000), 0, 2, rng.next(), {});
+        }
         for (auto &o : outs) o->flush();
     } else {
         // default configuration of the wrapped class: base 8, buffer of 585 entries, no indexed level below 2^24
